@@ -25,6 +25,13 @@ package types
 
 //@ func (mte *MarketToExchangePrices).GetValidMedianPrices(marketParams, readTime) (prices)
 //@ requires [receiver_present] mte != nil
+//@ requires [stored_entries_present] forall m int :: has(mte.marketToExchangePrices, m) ==> mte.marketToExchangePrices[m] != nil && forall e string :: has(mte.marketToExchangePrices[m].exchangeToPriceTimestamp, e) ==> mte.marketToExchangePrices[m].exchangeToPriceTimestamp[e] != nil
+//@ requires [maximum_age_non_negative] mte.maxPriceAge >= 0
+//@ ensures [freshness_cutoff_is_the_read_time_minus_the_maximum_age] called(GetValidPrices) ==> arg(GetValidPrices, cutoffTime) == readTime - mte.maxPriceAge
+//@ loop 0 "for _, marketParam := range marketParams"
+//@ loop 0 invariant [freshness_cutoff_is_the_read_time_minus_the_maximum_age] called(GetValidPrices) ==> arg(GetValidPrices, cutoffTime) == readTime - mte.maxPriceAge
+//@ loop 0 invariant [max_age_unchanged] mte.maxPriceAge == old(mte.maxPriceAge)
+//@ loop 0 invariant [stored_entries_present] forall m int :: has(mte.marketToExchangePrices, m) ==> mte.marketToExchangePrices[m] != nil && forall e string :: has(mte.marketToExchangePrices[m].exchangeToPriceTimestamp, e) ==> mte.marketToExchangePrices[m].exchangeToPriceTimestamp[e] != nil
 //@ requires [lock_free_on_entry] !locked()
 //@ ensures [lock_released_on_return] !locked()
 
@@ -36,5 +43,10 @@ package types
 
 //@ func (etp *ExchangeToPrice).GetValidPrices(cutoffTime) (prices)
 //@ requires [receiver_present] etp != nil
+//@ requires [stored_entries_present] forall e string :: has(etp.exchangeToPriceTimestamp, e) ==> etp.exchangeToPriceTimestamp[e] != nil
 //@ requires [caller_holds_the_cache_lock] locked()
 //@ ensures [lock_still_held] locked()
+//@ ensures [only_fresh_stored_prices_are_returned] forall j in [0, len(prices)) :: exists e string :: has(etp.exchangeToPriceTimestamp, e) && etp.exchangeToPriceTimestamp[e].LastUpdateTime >= cutoffTime && prices[j] == etp.exchangeToPriceTimestamp[e].Price
+//@ ensures [reads_only] forall e string :: (has(etp.exchangeToPriceTimestamp, e) <==> old(has(etp.exchangeToPriceTimestamp, e))) && etp.exchangeToPriceTimestamp[e] == old(etp.exchangeToPriceTimestamp[e])
+//@ loop 0 "for exchangeId, priceTimestamp := range etp.exchangeToPriceTimestamp"
+//@ loop 0 invariant [only_fresh_stored_prices_so_far] forall j in [0, len(validExchangePricesForMarket)) :: exists e string :: has(etp.exchangeToPriceTimestamp, e) && etp.exchangeToPriceTimestamp[e].LastUpdateTime >= cutoffTime && validExchangePricesForMarket[j] == etp.exchangeToPriceTimestamp[e].Price
